@@ -55,8 +55,13 @@ type T struct {
 	modelled   bool
 	outcome    string
 	impl       int
+	extra      int
 	sample     interface{}
 }
+
+// Evals records that this case body evaluated n distinct points (block cases that
+// sweep a dense range report the true number of points instead of 1).
+func (t *T) Evals(n int) { t.extra += n }
 
 // Impl counts n calls into the implementation (transitions).
 func (t *T) Impl(n int) { t.impl += n }
@@ -229,6 +234,16 @@ func (c *Ctx) Case(key string, fn func(t *T)) {
 	}()
 	c.res.Evaluations++
 	c.res.Groups[c.group]++
+	if t.extra > 1 {
+		c.res.Evaluations += t.extra - 1
+		c.res.Groups[c.group] += t.extra - 1
+		if t.nontrivial {
+			c.res.NonTrivial += t.extra - 1
+		}
+		if t.modelled {
+			c.res.Validated += t.extra - 1
+		}
+	}
 	c.res.Transitions += t.impl
 	if t.nontrivial {
 		c.res.NonTrivial++
